@@ -101,6 +101,38 @@ def catalogue():
                                [call("SUB", binds={"x": self_("x")}, dis=self_("off"))],
                                {"o": ref("SUB", "y")})], "TOP", {"x": 1, "off": True}))
 
+    # 8b. stacked disabling conditions produced by different stages: the outer one true,
+    #     the inner one false (nothing below may run, whichever flag arrives first)
+    FLAG = lambda n, v: stage(n, "", "bool v", {"v": const(v)})
+    P.append(program("dis_stacked", [], [S_echo("A"), S_echo("B"), FLAG("GO", True), FLAG("GI", False)],
+                     [pipeline("SUB", "int x, bool d", "int y",
+                               [call("A", binds={"x": self_("x")}, dis=self_("d")),
+                                call("B", binds={"x": self_("x")})], {"y": ref("A", "y")}),
+                      pipeline("TOP", "int x", "int o",
+                               [call("GO"), call("GI"),
+                                call("SUB", binds={"x": self_("x"), "d": ref("GI", "v")}, dis=ref("GO", "v"))],
+                               {"o": ref("SUB", "y")})], "TOP", {"x": 1}))
+    # 8c. three nested pipelines each with its own run-time condition (all false), and two
+    #     sibling calls with their own conditions inside: one disabled, one enabled
+    P.append(program("dis_deep", [], [S_echo("A"), S_echo("B"), S_echo("C"), FLAG("F1", False), FLAG("F2", False), FLAG("F3", False),
+                                     FLAG("FA", True), FLAG("FB", False)],
+                     [pipeline("P3", "int x, bool da, bool db", "int y, int z",
+                               [call("A", binds={"x": self_("x")}, dis=self_("da")),
+                                call("B", binds={"x": self_("x")}, dis=self_("db")),
+                                call("C", binds={"x": self_("x")})],
+                               {"y": ref("A", "y"), "z": ref("B", "y")}),
+                      pipeline("P2", "int x, bool d3, bool da, bool db", "int y, int z",
+                               [call("P3", binds={"x": self_("x"), "da": self_("da"), "db": self_("db")}, dis=self_("d3"))],
+                               {"y": ref("P3", "y"), "z": ref("P3", "z")}),
+                      pipeline("P1", "int x, bool d2, bool d3, bool da, bool db", "int y, int z",
+                               [call("P2", binds={"x": self_("x"), "d3": self_("d3"), "da": self_("da"), "db": self_("db")}, dis=self_("d2"))],
+                               {"y": ref("P2", "y"), "z": ref("P2", "z")}),
+                      pipeline("TOP", "int x", "int o, int p",
+                               [call("F1"), call("F2"), call("F3"), call("FA"), call("FB"),
+                                call("P1", binds={"x": self_("x"), "d2": ref("F2", "v"), "d3": ref("F3", "v"),
+                                                  "da": ref("FA", "v"), "db": ref("FB", "v")}, dis=ref("F1", "v"))],
+                               {"o": ref("P1", "y"), "p": ref("P1", "z")})], "TOP", {"x": 1}))
+
     # 9. splitting stage with run-time chunk count 2 / 0 and a consumer
     for nm, val in (("split2", [1, 2]), ("split0", []), ("split1", [5]), ("split10", list(range(10)))):
         P.append(program(nm, [], [S_split("S"), stage("R", "int[] xs", "int n", {"n": length("xs")})],
